@@ -1,4 +1,5 @@
 import Martian.Lemmas.H2Hpack
+import Martian.Generated.H2Relay
 /-!
 C08 — "header blocks that decode under its own HPACK state to the same field list": the part of
 that clause which depends on SETTINGS_HEADER_TABLE_SIZE histories.
@@ -383,5 +384,21 @@ theorem literal_blocks_leave_table_alone (d : Dec) (first : Bool) (fs : List Ent
   induction fs generalizing first with
   | nil => rfl
   | cons e rest ih => simp [decBlock, decRep, ih false]
+
+/-! ### Facts regenerated from `/repo` on every run (`go/cmd/vextract/facts_c08.go`) -/
+
+/-- `newRelay` / `updateTableSize` are what `Hp` and `Hp.updateTableSize` transcribe: tables start
+at `initialMaxHeaderTableSize`; the decoder accepts any in-band size update and the encoder may
+follow any advertised size (`math.MaxUint32`, set in `newRelay` and nowhere else);
+`updateTableSize` sets the encoder's size and does not touch the decoder (F08e repair). -/
+theorem facts_hpack_table_sizes :
+    Generated.H2Relay.initialMaxHeaderTableSize = ({} : Hp).dec.tab.maxSize ∧
+    Generated.H2Relay.initialMaxHeaderTableSize = ({} : Hp).enc.maxSize ∧
+    Generated.H2Relay.initialMaxHeaderTableSize = ({} : Snd).limit ∧
+    Generated.H2Relay.decoderAllowsAnySizeUpdate = true ∧ ({} : Hp).dec.allowed = 4294967295 ∧
+    Generated.H2Relay.encoderLimitIsMaxUint32 = true ∧ ({} : Hp).enc.limit = 4294967295 ∧
+    Generated.H2Relay.updateTableSizeSetsEncoder = true ∧
+    Generated.H2Relay.updateTableSizeTouchesDecoder = false := by
+  decide
 
 end Martian.Props.C08
